@@ -12,16 +12,21 @@ Loop-back server for other worlds (C03/C32):
     ww = wiresim.WireWorld(sim, get_transport(store_url), server="pipe"|"socket",
                            server_read="exact"|"atmost", client_read="atmost"|"exact"|"greedy",
                            strict=False, seg={"m": "hot", "ph": 0.6, "sh": True, "s": seed},
-                           resets=[{"req": k, "kind": "send"|"eof_before"|"eof_after", "write": j}])
+                           resets=[{"req": k, "kind": "send"|"eof_before"|"eof_after", "write": j}],
+                           root_client_path=None | "/prefix/")
     t = wiresim.loopback_transport(ww)          # RemoteTransport("bzr://sim/") over LoopbackMedium
     b = ControlDir.open_from_transport(t.clone("br")).open_branch()   # RemoteBzrDir / RemoteBranch
+    b = Branch.open(wiresim.loopback_url(ww, "br"))    # the same by URL: bzr+sim://<ww.name>/br (shared medium)
 `resets` are consumed as the k-th request (0-based, counted over reconnections) is sent:
 ConnectionResetError on its j-th write, or EOF on the first read of its response before
 / after the server executed it; the client's own retry logic then reconnects and gets
 fresh pipes and a fresh server-side medium on the same backing transport.
 `sim.faults_fired` counts reset_send / reset_eof_before / reset_eof_after; `ww.nreq`,
 `ww.connections[i].c2s/.s2c` (SimPipe: msgs, rpos, in_flight()) are there for oracles.
-Call `wiresim.warm()` (or `install()`) once per process first.
+Call `wiresim.warm()` (or `install()`) once per process first.  `install()` also replaces
+the worker thread of the Repository.insert_stream* handlers by a deferred synchronous call
+(`_DeferredThread`): same byte stream, no real concurrency, the inserting code runs in the
+simulated client's thread at do_end().
 
 Layers (each usable alone):
   SimPipe                 one direction of a connection; knows message boundaries
@@ -484,8 +489,14 @@ class WireWorld:
     `resets`: list of {"req": k, "kind": "send" | "eof_before" | "eof_after", "write": j}
     consumed as the k-th request (counted over all connections, 0-based) is sent."""
 
-    def __init__(self, sim, backing_transport, server="pipe", server_read="exact", client_read="atmost", strict=False, resets=None, seg=None):
+    def __init__(self, sim, backing_transport, server="pipe", server_read="exact", client_read="atmost", strict=False, resets=None, seg=None, root_client_path=None, name="sim"):
         self.sim = sim
+        self.root_client_path = root_client_path  # None = the medium's default ("/"); C31 varies it
+        self.name = name  # host part of the bzr+sim:// URLs that reach this world
+        self.shared_medium = None
+        if not hasattr(sim, "wires"):
+            sim.wires = {}
+        sim.wires[name] = self
         self.seg = seg  # default segmentation spec, e.g. {"m": "hot", "ph": 0.6, "sh": True, "s": seed}; per-message seeds are derived
         self.backing_transport = backing_transport
         self.server = server
@@ -543,6 +554,8 @@ class Connection:
             self.server = _socket_server_class()(self.sock, wworld.backing_transport, timeout=4.0)
         else:
             self.server = medium.SmartServerPipeStreamMedium(_PipeIn(self.c2s, wworld.server_read), _PipeOut(self.s2c), wworld.backing_transport, timeout=4.0)
+        if wworld.root_client_path is not None:
+            self.server.root_client_path = wworld.root_client_path
 
     # -- client side ------------------------------------------------------------
     def client_write(self, data):
@@ -677,6 +690,35 @@ def loopback_transport(wire_world, base="bzr://sim/"):
     from breezy.transport import remote
 
     return remote.RemoteTransport(base, medium=LoopbackMedium(wire_world, base))
+
+
+SIM_SCHEME = "bzr+sim://"
+
+
+def loopback_url(wire_world, path=""):
+    """URL under which the served directory of `wire_world` can be opened by name
+    (`Branch.open(url)`, stacked-on locations, ...): bzr+sim://<world name>/<path>.  All
+    transports opened that way share one client medium (one connection, re-established
+    by the real client code after a reset), like one breezy process talking to one host."""
+    return f"{SIM_SCHEME}{wire_world.name}/{path}"
+
+
+def _sim_url_factory(url):
+    from breezy.transport import remote
+
+    host = url[len(SIM_SCHEME) :].split("/", 1)[0]
+    ww = cur_sim().wires[host]
+    if ww.shared_medium is None:
+        ww.shared_medium = LoopbackMedium(ww, f"{SIM_SCHEME}{host}/")
+    return remote.RemoteTransport(url, medium=ww.shared_medium)
+
+
+def _register_scheme():
+    from dromedary import register_transport, register_urlparse_netloc_protocol, transport_list_registry
+
+    if SIM_SCHEME not in transport_list_registry.keys():
+        register_urlparse_netloc_protocol(SIM_SCHEME[:-3])
+        register_transport(SIM_SCHEME, _sim_url_factory)
 
 
 # ----------------------------------------------------------------- echo verbs + hooks
@@ -825,10 +867,92 @@ def install():
 
     _observe_terminate(medium.SmartServerPipeStreamMedium)
     _observe_terminate(medium.SmartServerSocketStreamMedium)
+    _install_sync_inserter()
+    _register_scheme()
     medium.SmartMedium._push_back = _push_back
     request.SmartServerRequestHandler.post_body_error_received = post_body_error_received
     message.MessageHandler.headers_received = headers_received
     _installed["x"] = True
+
+
+class _DeferredThread:
+    """Stand-in for threading.Thread inside breezy.bzr.smart.repository: the insert_stream
+    handlers decode and insert the record stream in a worker thread fed through a queue
+    while the network loop delivers chunks.  In the synchronous loop-back world that
+    thread would race with the client (which reads the source repository through the same
+    seam) and would not belong to the simulation.  Here start() does nothing and join()
+    runs the target in the calling thread: by then (do_end) every chunk and the end
+    sentinel are in the queue, so the worker sees exactly the same byte stream."""
+
+    def __init__(self, target=None, args=(), kwargs=None, **_ignored):
+        self._target, self._args, self._kwargs = target, args, kwargs or {}
+        self._ran = False
+
+    def start(self):
+        pass
+
+    def join(self, timeout=None):
+        if not self._ran:
+            self._ran = True
+            self._target(*self._args, **self._kwargs)
+
+    def is_alive(self):
+        return not self._ran
+
+
+class _ThreadingShim:
+    Thread = _DeferredThread
+
+    def __getattr__(self, name):
+        import threading
+
+        return getattr(threading, name)
+
+
+def _install_sync_inserter():
+    from breezy.bzr.smart import repository as smart_repo
+
+    if not isinstance(smart_repo.threading, _ThreadingShim):
+        smart_repo.threading = _ThreadingShim()
+
+
+def pin_lock_info():
+    """Determinism pin for worlds in which lock info files travel over the wire (a client
+    peeks at lock/held/info through the VFS `get` verb): the Rust LockHeldInfo records the
+    real pid and the wall-clock start time, whose decimal lengths would leak into message
+    lengths and hence into the segmentation of the byte streams.  breezy.lockdir gets a
+    stand-in whose for_this_process() is the real one with pid 1 (a live process, like the
+    real holder) and the virtual clock as start time; nonce, user, host name, extra holder
+    info and all parsing/liveness code stay real.  Idempotent."""
+    import re
+
+    import breezy.lockdir as ld
+
+    real = ld.LockHeldInfo
+    if getattr(real, "_sim_pinned", False):
+        return
+
+    class _Meta(type):
+        def __instancecheck__(cls, obj):
+            return isinstance(obj, real)
+
+    class PinnedLockHeldInfo(metaclass=_Meta):
+        _sim_pinned = True
+        from_info_file_bytes = staticmethod(real.from_info_file_bytes)
+
+        @staticmethod
+        def for_this_process(extra_holder_info):
+            data = real.for_this_process(extra_holder_info).to_bytes()
+            try:
+                now = int(cur_sim().time())
+            except RuntimeError:
+                now = 1_000_000
+            data = re.sub(rb"(?m)^pid: \d+$", b"pid: 1", data, count=1)
+            data = re.sub(rb"secs_since_epoch: \d+", b"secs_since_epoch: %d" % now, data, count=1)
+            data = re.sub(rb"nanos_since_epoch: \d+", b"nanos_since_epoch: 0", data, count=1)
+            return real.from_info_file_bytes(data)
+
+    ld.LockHeldInfo = PinnedLockHeldInfo
 
 
 _warmed = False
